@@ -41,6 +41,7 @@ fn main() {
     }
     match args[1].as_str() {
         "noop" => {}
+        "dbg13" => policy::debug_c13(args[2].parse().unwrap()),
         "check" => {
             if args.len() < 4 {
                 usage();
@@ -57,6 +58,7 @@ fn main() {
             let shard: u64 = args[5].parse().unwrap();
             let budget = Duration::from_secs_f64(args[6].parse().unwrap());
             let max_iters: u64 = args[7].parse().unwrap();
+            orchestrate::set_emergency_path(&args[8]);
             let rep = orchestrate::run_shard(prop, tier, seed, shard, budget, max_iters);
             std::fs::write(&args[8], serde_json::to_string(&rep.to_json()).unwrap()).unwrap();
         }
